@@ -30,6 +30,7 @@ import sys
 import time
 from http import client
 from typing import List, Mapping, Union, cast
+from urllib.parse import quote
 
 from radicale import config, pathutils, types
 from radicale.log import logger
@@ -158,7 +159,7 @@ def read_request_body(configuration: "config.Configuration",
 
 def redirect(location: str, status: int = client.FOUND) -> types.WSGIResponse:
     return (status,
-            {"Location": location, "Content-Type": "text/plain"},
+            {"Location": quote(location), "Content-Type": "text/plain"},
             "Redirected to %s" % location)
 
 
